@@ -1165,12 +1165,22 @@ func (a *An) analyze(fn *ssa.Function) *fnInfo {
 // cell of the type is shared by all goroutines, whatever package the type lives in.
 var singletonTypes = map[string]string{}
 
+// aliasedCells: field cells into which some function stores a map / slice / pointer taken from a package-level
+// variable (`f.pwmMap = identityPwmMap`).  What hangs off such a field ("F[]", "F*") may be the one package-level
+// object for every owner, so everything behind the field is shared by all goroutines.
+var aliasedCells = map[string]string{}
+
 func classOf(cell string) string {
 	if strings.HasPrefix(cell, "?") {
 		return "OOther"
 	}
 	for t := range singletonTypes {
 		if strings.HasPrefix(cell, t+".") {
+			return "OGlobal"
+		}
+	}
+	for c := range aliasedCells {
+		if strings.HasPrefix(cell, c+"[") || strings.HasPrefix(cell, c+"*") { // what the field refers to, not the field slot itself
 			return "OGlobal"
 		}
 	}
@@ -1356,6 +1366,41 @@ func main() {
 			}
 			walk(deref(g.Type()), 0)
 		}
+	}
+	for _, fn := range a.allFuncs {
+		for _, b := range fn.Blocks {
+			for _, instr := range b.Instrs {
+				st, ok := instr.(*ssa.Store)
+				if !ok {
+					continue
+				}
+				switch st.Val.Type().Underlying().(type) {
+				case *types.Map, *types.Slice, *types.Pointer:
+				default:
+					continue
+				}
+				if _, isField := st.Addr.(*ssa.FieldAddr); !isField {
+					continue
+				}
+				global := ""
+				for _, o := range a.origins(st.Val, newCtx()) {
+					if i := strings.Index(o.cell, ":"); i > 0 && !strings.ContainsAny(o.cell[:i], ".?") {
+						global = o.cell
+					}
+				}
+				if global == "" {
+					continue
+				}
+				for _, c := range a.cellsOf(st.Addr, newCtx()) {
+					if !strings.Contains(c, ":") {
+						aliasedCells[c] = global
+					}
+				}
+			}
+		}
+	}
+	for c, g := range aliasedCells {
+		a.note("field " + c + " is assigned a reference taken from the package-level " + g + ": what it refers to is shared by all goroutines")
 	}
 	for t, g := range singletonTypes {
 		a.note("type " + t + " has a package-level instance (" + g + "): its cells are shared by all goroutines")
